@@ -138,6 +138,30 @@ func applyProfile(t *Tape, property string, sc *Scenario, cfg *Config) {
 		if sc.MaxSurge == "0" && sc.MaxUnav == "0" {
 			sc.MaxUnav = "1"
 		}
+	case "C02":
+		// more cursor manipulation: jumps (also before the BatchRelease exists), pauses, plan edits
+		if t.Next(2) == 1 {
+			st := stepStates[t.Next(3)]
+			sc.Events = append([]UserEvent{{Kind: "jump", AtStep: 1 + t.Next(len(sc.Steps)), AtState: st, Arg: 1 + t.Next(len(sc.Steps))}}, sc.Events...)
+		}
+	case "C11":
+		if t.Next(2) == 1 {
+			sc.Events = append([]UserEvent{{Kind: "edit-plan-current", AtStep: 1 + t.Next(len(sc.Steps)), AtState: stepStates[2+t.Next(4)], Arg: t.Next(1000)}}, sc.Events...)
+		}
+	case "C10", "C04":
+		if sc.Traffic == "" {
+			sc.Traffic = []string{"ingress-nginx", "gateway"}[t.Next(2)]
+			sc.GraceSec = []int{0, 1, 3, 5}[t.Next(4)]
+			for i := range sc.Steps {
+				if t.Next(3) != 0 && !(sc.Family != "deploy-canary" && pctOver(sc.Steps[i].Replicas, 50)) {
+					sc.Steps[i].Weight = 1 + t.Next(100)
+				}
+			}
+		}
+		if t.Next(2) == 1 {
+			k := []string{"release-v3", "rollback"}[t.Next(2)]
+			sc.Events = append([]UserEvent{{Kind: k, AtStep: 1 + t.Next(len(sc.Steps)), AtState: stepStates[t.Next(len(stepStates))]}}, sc.Events...)
+		}
 	case "C08":
 		for i, n := 0, 1+t.Next(3); i < n; i++ {
 			kinds := []string{"touch-annotation", "unpause-workload", "scale", "reissue-rollout-id", "release-v3"}
@@ -214,4 +238,13 @@ func drawEvents(t *Tape, sc *Scenario) {
 			}
 		}
 	}
+}
+
+func pctOver(v string, limit int) bool {
+	if !strings.HasSuffix(v, "%") {
+		return false
+	}
+	p := 0
+	fmt.Sscanf(v, "%d%%", &p)
+	return p > limit
 }
